@@ -26,7 +26,9 @@ Few == Wrap({X, GNum(2)}, {"+", "-", "*", "/"}, {}, {"neg"})
 Siblings(e) == IF Depth(e) = 0 THEN Leaves
                ELSE IF SiblingSet = "all" THEN D1 ELSE Leaves \cup Few
 
-Seeds == { Inf(Inf(Inf(GNum(2), "*", X), "+", Y), "+", Inf(Inf(GNum(3), "*", X), "+", GNum(1))),
+\* the four ways mul_matches can pair the factors, in the order the code tries them
+Seeds == { Inf(Inf(Inf(X, "*", GNum(2)), "+", Y), "+", Inf(Inf(X, "*", GNum(3)), "+", GNum(1))),
+           Inf(Inf(Inf(GNum(2), "*", X), "+", Y), "+", Inf(Inf(GNum(3), "*", X), "+", GNum(1))),
            Inf(Inf(Inf(X, "*", GNum(2)), "+", Y), "+", Inf(Inf(GNum(3), "*", X), "+", Y)),
            Inf(Inf(Inf(Y, "*", X), "+", GNum(1)), "+", Inf(Inf(X, "*", X), "+", GNum(2))),
            Inf(Inf(Inf(GNum(2), "*", X), "+", Y), "+", Inf(Inf(Y, "*", GNum(2)), "+", X)),
@@ -49,9 +51,22 @@ HasFn(e) == CASE e.t = "fn" -> TRUE
               [] e.t \in {"neg", "pos"} -> HasFn(e.e)
               [] e.t = "inf" -> HasFn(e.l) \/ HasFn(e.r)
 
+\* exponents whose value is not an integer built from integer literals: there GF(1009) and floating point
+\* may fold a closed power differently (4^(1/2), (2^pi)^(1/pi) are exact in floating point, generic here)
+RECURSIVE OddExponent(_), HasOddPow(_)
+OddExponent(e) == CASE e.t = "pi" -> TRUE
+                    [] e.t = "num" -> e.n = Inv(2)
+                    [] e.t \in {"var", "addr"} -> FALSE
+                    [] e.t \in {"neg", "pos", "fn"} -> OddExponent(e.e)
+                    [] e.t = "inf" -> e.op \in {"/", "^"} \/ OddExponent(e.l) \/ OddExponent(e.r)
+HasOddPow(e) == CASE IsLeaf(e) -> FALSE
+                  [] e.t \in {"neg", "pos", "fn"} -> HasOddPow(e.e)
+                  [] e.t = "inf" -> (e.op = "^" /\ OddExponent(e.r)) \/ HasOddPow(e.l) \/ HasOddPow(e.r)
+
 \* one line per explored tree: the input, the rule that fired at the root and the model's result
-\* (`cmp`: the model's result is comparable with the real one - without function calls constant folding
-\*  never leaves the interpreted fragment in a way that changes which rule matches)
+\* (`cmp`: the model's result is comparable with the real one: no function call and no power with a
+\*  non-integer closed exponent, i.e. constant folding stays inside the fragment GF(1009) interprets exactly)
 Emit == phase = "done" =>
-          PrintT(<<"CASE", ToJson([tree |-> tree, arm |-> arm, out |-> out, cmp |-> ~HasFn(tree)])>>)
+          PrintT(<<"CASE", ToJson([tree |-> tree, arm |-> arm, out |-> out,
+                                   cmp |-> ~HasFn(tree) /\ ~HasOddPow(tree)])>>)
 =============================================================================
